@@ -41,7 +41,7 @@ def _order_fields(fields):
     return nd + d
 
 
-def _gen_class(rng, name, base=None, base_has_defaults=False, taken=()):
+def _gen_class(rng, name, base=None, base_has_defaults=False, taken=(), redeclare=None):
     pool = [n for n in ["a", "b", "c", "x", "y", "items", "name", "_p", "q", "r", "s", "t", "u", "w"] if n not in taken]
     nf = min(rng.randint(0, 5), len(pool))
     names = rng.sample(pool, nf)
@@ -61,6 +61,12 @@ def _gen_class(rng, name, base=None, base_has_defaults=False, taken=()):
         flags["unsafe_hash"] = True
     if rng.random() < 0.1 and not flags.get("order"):
         flags["eq"] = False
+    if redeclare is not None:
+        # re-declare an inherited field (it keeps its place in the signature) with another plain default
+        t = redeclare["t"]["src"]
+        nd = {"int": 9, "str": "re", "typing.Optional[int]": 3}.get(t)
+        if nd is not None:
+            fields.append({"n": redeclare["n"], "t": redeclare["t"], "default": nd})
     d = {"d": "dataclass", "n": name, "fields": fields, "flags": flags}
     if base:
         d["base"] = base
@@ -151,7 +157,11 @@ class C19(PropBase):
                 if b["flags"].get("frozen") or rng.random() < 0.0:
                     pass
             taken = [f["n"] for f in next(c for c in classes if c["n"] == base)["all_fields"]] if base else ()
-            d = _gen_class(rng, f"VwC{i}", base, bhd, taken)
+            red = None
+            if base and rng.random() < 0.3:
+                cands = [f for f in next(c for c in classes if c["n"] == base)["all_fields"] if "default" in f and f["t"]["src"] in ("int", "str", "typing.Optional[int]")]
+                red = rng.choice(cands) if cands else None
+            d = _gen_class(rng, f"VwC{i}", base, bhd, taken, red)
             if base:
                 b = next(c for c in classes if c["n"] == base)
                 # frozen-ness must match the base (dataclass rule)
